@@ -411,7 +411,13 @@ fn doscmint_corner(run: &Run, pools: &[rayon::ThreadPool]) {
         StepOut::Next(x) => x,
         _ => return,
     };
-    let split = tx_t(TxKind::Normal, vec![melstructs::CoinID::zero_zero()], vec![out_t(400_000_000, Denom::Mel), out_t(300_000_000, Denom::Mel), out_t(300_000_000, Denom::Mel)], 0, vec![]);
+    let split = tx_t(
+        TxKind::Normal,
+        vec![melstructs::CoinID::zero_zero()],
+        vec![out_t(400_000_000, Denom::Mel), out_t(300_000_000, Denom::Mel), out_t(100_000_000, Denom::Mel), out_t(100_000_000, Denom::Mel), out_t(100_000_000, Denom::Mel)],
+        0,
+        vec![],
+    );
     let n1 = match eng.step(&open1, &Action::Batch { label: "split".into(), txs: vec![split.clone()], expect_ok: true }) {
         StepOut::Next(x) => x,
         _ => return,
@@ -438,16 +444,29 @@ fn doscmint_corner(run: &Run, pools: &[rayon::ThreadPool]) {
         let max = ref_dosc_to_erg(height, ref_reward(speed, hdr1.dosc_speed, d, true)).unwrap_or(0);
         tx_t(TxKind::DoscMint, vec![coin], vec![out_t(split.outputs[i as usize].value.0, Denom::Mel), out_t(max, Denom::Erg)], 0, stdcode::serialize(&(d, proof)).unwrap())
     };
-    let fast = mint(0, 14);
-    let slow = mint(1, 12);
-    let normal = tx_t(TxKind::Normal, vec![split.output_coinid(2)], vec![out_t(300_000_000, Denom::Mel)], 0, vec![7]);
-    let all = vec![("mint-fast(d=14,full reward)".to_string(), fast), ("mint-slow(d=12,full reward)".to_string(), slow), ("xfer".to_string(), normal)];
-    for mask in 1u32..8 {
-        let names: Vec<String> = (0..3).filter(|i| mask & (1 << i) != 0).map(|i| all[i].0.clone()).collect();
-        let s: Vec<Transaction> = (0..3).filter(|i| mask & (1 << i) != 0).map(|i| all[i].1.clone()).collect();
+    // both mints demonstrate a speed above the recorded one (10^6): 100 * 2^15 and 100 * 2^14
+    let fast = mint(0, 15);
+    let slow = mint(1, 14);
+    // two ordinary payments pad the batch: a parallel fold splits a batch into chunks, and both mints have to be able to land in
+    // one chunk (in either order) as well as in different ones
+    let normal = |i: u8| tx_t(TxKind::Normal, vec![split.output_coinid(i)], vec![out_t(100_000_000, Denom::Mel)], 0, vec![7, i]);
+    let all = vec![
+        ("mint-fast(d=15,full reward)".to_string(), fast),
+        ("mint-slow(d=14,full reward)".to_string(), slow),
+        ("xfer-a".to_string(), normal(2)),
+        ("xfer-b".to_string(), normal(3)),
+    ];
+    (1u32..16).into_par_iter().for_each(|mask| {
+        // sets of up to three members, and the full set of four
+        if mask.count_ones() > 3 && mask != 15 {
+            return;
+        }
+        let names: Vec<String> = (0..4).filter(|i| mask & (1 << i) != 0).map(|i| all[i].0.clone()).collect();
+        let s: Vec<Transaction> = (0..4).filter(|i| mask & (1 << i) != 0).map(|i| all[i].1.clone()).collect();
         run.state();
-        check_set(run, &open2, &u, &p, &names, &s, pools);
-    }
+        // the full set goes through the 1-thread pool only (pools[0]): that is where both mints can share a chunk of the fold
+        check_set(run, &open2, &u, &p, &names, &s, if mask == 15 { &pools[..1] } else { pools });
+    });
 }
 
 /// Large batches: a payment chain of L transactions (each spends its predecessor's output) presented in a stated family of orders.
@@ -623,10 +642,15 @@ pub fn run(run: &Run) {
             run.set("subset_alphabet_of_first_base_state", json!(alpha.iter().map(|a| a.0.clone()).collect::<Vec<_>>()));
         }
     }
+    println!("  [phase] subsets done at {:.1}s", run.elapsed());
     genesis_block_corner(run, &pools);
+    println!("  [phase] genesis corner done at {:.1}s", run.elapsed());
     doscmint_corner(run, &pools);
+    println!("  [phase] doscmint corner done at {:.1}s", run.elapsed());
     large_batch_family(run, thorough);
+    println!("  [phase] large batches done at {:.1}s", run.elapsed());
     repeatability_sampling(run, thorough);
+    println!("  [phase] schedule sampling done at {:.1}s", run.elapsed());
     run.set("sets_checked", json!(total_sets));
     run.set("max_set_size_completed", json!(max_set));
     run.set("rayon_pool_sizes", json!(pool_sizes));
